@@ -3,6 +3,7 @@
    `~` = None); list items are joined by `,`; components / lines are separated by `|` tokens. -/
 import Lcapy.Model.Parser
 import Lcapy.Spec.Netlist
+import Lcapy.Spec.NetlistExec
 namespace Lcapy.Driver.C06
 open Lcapy.Parser Lcapy.Spec.Netlist
 
@@ -150,6 +151,10 @@ def handle (toks : List String) : Option String :=
       | some s => match valueParser Gen.Grammar.suffixSrc s with
         | .num q => "num " ++ toString q.num ++ "/" ++ toString q.den
         | .str t => "str " ++ enc t
+  | ["c06.okvalue", h] => some <|
+      match dec h with
+      | none => "bad-op"
+      | some s => toString (okValue g.delimiters s) ++ " " ++ toString (atomic g.delimiters (argFormat g.delimiters s))
   | ["c06.argformat", h] => some <|
       match dec h with
       | none => "bad-op"
